@@ -653,16 +653,23 @@ pub fn daemon_c20(out: &mut Out, tier: &str, rng: &mut Rng) {
         let t0 = Instant::now();
         let mut seen: Vec<Vec<[u8; 16]>> = vec![vec![]; nets];
         let mut all_claimed_at: Option<Instant> = None;
+        let mut last_req_at = Instant::now();
         while t0.elapsed() < Duration::from_millis(6000) {
             for (i, b) in buses.iter().enumerate() {
-                seen[i].extend(b.sync());
+                let fresh = b.sync();
+                if fresh.iter().any(|r| (u32::from_le_bytes([r[0], r[1], r[2], r[3]]) >> 16) & 0xFF == 0xEA) {
+                    last_req_at = Instant::now();
+                }
+                seen[i].extend(fresh);
             }
             let claimed = seen.iter().all(|v| v.iter().any(|r| (u32::from_le_bytes([r[0], r[1], r[2], r[3]]) >> 8) & 0xFF00 == 0xEE00));
             if claimed && all_claimed_at.is_none() {
                 all_claimed_at = Some(Instant::now());
             }
+            // until every network has announced itself and no further request to a unit has appeared for 600 ms (a loaded
+            // machine may run the first cycles late)
             if let Some(t) = all_claimed_at {
-                if t.elapsed() > Duration::from_millis(500) {
+                if t.elapsed() > Duration::from_millis(600) && last_req_at.elapsed() > Duration::from_millis(600) {
                     break;
                 }
             }
